@@ -95,13 +95,27 @@ impl Roll for CountingRoller {
     }
 }
 
-fn check_history(case: &Value) -> Option<Value> {
+#[derive(serde::Deserialize)]
+struct NoConfig {}
+struct CountingRollerDeserializer(Arc<AtomicUsize>);
+impl log4rs::config::Deserialize for CountingRollerDeserializer {
+    type Trait = dyn Roll;
+    type Config = NoConfig;
+    fn deserialize(&self, _: NoConfig, _: &log4rs::config::Deserializers) -> anyhow::Result<Box<dyn Roll>> {
+        Ok(Box::new(CountingRoller(self.0.clone())))
+    }
+}
+
+fn check_history(ci: usize, case: &Value) -> Option<Value> {
     let ops = case["ops"].as_array().unwrap();
     let cfg = &case["cfg"];
     let scratch = Scratch::new("time");
     let path = scratch.path().join("t.log");
     let rolls = Arc::new(AtomicUsize::new(0));
-    let mut appender: Option<(RollingFileAppender, Arc<TimeTrigger>)> = None;
+    // every other history builds the whole appender from a configuration value (kind `time` inside a compound
+    // policy): there the schedule is not observable, the firing decisions and the file are
+    let via_config = ci % 2 == 1;
+    let mut appender: Option<(Box<dyn log4rs::append::Append>, Option<Arc<TimeTrigger>>)> = None;
     let mut expected_file = String::new();
     let res = catch(|| -> Option<Value> {
         for (i, op) in ops.iter().enumerate() {
@@ -113,6 +127,17 @@ fn check_history(case: &Value) -> Option<Value> {
             let sched_want = naive(&op["sched"]);
             if op["op"] == "new" {
                 let doc = format!("interval: {} {}\nmodulate: {}\n", cfg["n"], cfg["unit"].as_str().unwrap(), cfg["mod"]);
+                if via_config {
+                    let mut d = log4rs::config::Deserializers::default();
+                    d.insert("counting", CountingRollerDeserializer(rolls.clone()));
+                    let v: serde_value::Value = serde_json::from_value(json!({
+                        "path": path.to_string_lossy(), "encoder": {"pattern": "{m}{n}"},
+                        "policy": {"kind": "compound",
+                                   "trigger": {"kind": "time", "interval": format!("{} {}", cfg["n"], cfg["unit"].as_str().unwrap()), "modulate": cfg["mod"]},
+                                   "roller": {"kind": "counting"}}})).unwrap();
+                    let a = d.deserialize::<dyn log4rs::append::Append>("rolling_file", v).expect("appender from configuration");
+                    appender = Some((a, None));
+                } else {
                 let tc: TimeTriggerConfig = serde_yaml::from_str(&doc).expect("trigger config");
                 let trig = Arc::new(TimeTrigger::new(tc));
                 let policy = CompoundPolicy::new(Box::new(SharedTrigger(trig.clone())), Box::new(CountingRoller(rolls.clone())));
@@ -120,7 +145,8 @@ fn check_history(case: &Value) -> Option<Value> {
                     .encoder(Box::new(log4rs::encode::pattern::PatternEncoder::new("{m}{n}")))
                     .build(&path, Box::new(policy))
                     .expect("appender");
-                appender = Some((a, trig));
+                appender = Some((Box::new(a), Some(trig)));
+                }
             } else {
                 let (a, _) = appender.as_ref().unwrap();
                 let before = rolls.load(Ordering::SeqCst);
@@ -143,7 +169,10 @@ fn check_history(case: &Value) -> Option<Value> {
                     return Some(json!({"step": i, "what": "file content around the rotation", "expected": expected_file, "actual": got}));
                 }
             }
-            let sched = appender.as_ref().unwrap().1.verif_scheduled();
+            let sched = match &appender.as_ref().unwrap().1 {
+                Some(t) => t.verif_scheduled(),
+                None => continue,
+            };
             if sched <= t {
                 return Some(json!({"step": i, "what": "scheduled instant is not strictly in the future", "now": t.to_rfc3339(), "scheduled": sched.to_rfc3339()}));
             }
@@ -197,7 +226,7 @@ pub fn main(args: &[String]) {
         let mut m = if c["kind"] == "grid" {
             check_grid(c, &skipped, &weak)
         } else if fixed {
-            check_history(c)
+            check_history(i, c)
         } else {
             None
         };
